@@ -559,7 +559,7 @@ func (p c05) Run(w *mon.Worker, idx int) mon.Result {
 			sb.WriteString(ln)
 		}
 		st.Text, mut = sb.String(), "indented_root"
-	case idx%10 == 4 && !st.ZeroDocs && strings.HasSuffix(st.Text, "\n") && !strings.HasSuffix(st.Text, "\n\n"):
+	case (idx%10 == 4 || idx%10 == 6 || idx%10 == 8) && !st.ZeroDocs && strings.HasSuffix(st.Text, "\n") && !strings.HasSuffix(st.Text, "\n\n"):
 		st.Text, mut = st.Text[:len(st.Text)-1], "no_final_newline"
 	case idx%10 == 9 && !st.ZeroDocs && !strings.Contains(st.Text, "#") && !strings.HasPrefix(st.Text, "-") && !strings.HasPrefix(st.Text, "%") && !strings.Contains(st.Text, "\r"):
 		st.Text, mut = strings.ReplaceAll(st.Text, "\n", "\r"), "cr_line_breaks"
